@@ -51,12 +51,24 @@ Theorem C17_censored_dry_zero : forall (P : Type) (G : dist P) (gf : P) thr x u,
 Proof. exact @censored_dry_zero. Qed.
 Print Assumptions C17_censored_dry_zero.
 
+(** ignore-zeros model (REGENERATED from the source): exactly the zeros are sent to -inf and come back as 0;
+    every other value, however small, keeps a finite cdf value and round-trips *)
 Theorem C17_ignorezeros_sentinel : forall (P : Type) (D : dist P) (fr : P),
-  iz_cdf D fr 0 = XQ.NInf /\ iz_ppf D fr XQ.NInf = 0.
+  ignorezeros_cdf D 0 fr = XQ.NInf /\ ignorezeros_ppf D XQ.NInf fr == 0.
 Proof. exact @ignorezeros_sentinel. Qed.
 Print Assumptions C17_ignorezeros_sentinel.
 
+Theorem C17_ignorezeros_only_zeros_ignored : forall (P : Type) (D : dist P) (fr : P) x,
+  (x == 0 -> ignorezeros_cdf D x fr = XQ.NInf) /\ (~ x == 0 -> ignorezeros_cdf D x fr = XQ.Fin (cdf D fr x)).
+Proof. exact @ignorezeros_cdf_spec. Qed.
+Print Assumptions C17_ignorezeros_only_zeros_ignored.
+
 Theorem C17_ignorezeros_roundtrip_wet : forall (P : Type) (D : dist P) (fr : P) x,
-  ~ x == 0 -> ppf D fr (cdf D fr x) == x -> iz_ppf D fr (iz_cdf D fr x) == x.
+  ~ x == 0 -> ppf D fr (cdf D fr x) == x -> ignorezeros_ppf D (ignorezeros_cdf D x fr) fr == x.
 Proof. exact @ignorezeros_roundtrip_wet. Qed.
 Print Assumptions C17_ignorezeros_roundtrip_wet.
+
+Theorem C17_ignorezeros_dry_zero : forall (P : Type) (D : dist P) (fr : P),
+  ignorezeros_ppf D (ignorezeros_cdf D 0 fr) fr == 0.
+Proof. exact @ignorezeros_dry_zero. Qed.
+Print Assumptions C17_ignorezeros_dry_zero.
